@@ -25,6 +25,7 @@ carry its verdict, action and token, and must not outlive the TTL.
 from __future__ import annotations
 
 import hashlib
+import sys
 import zlib
 
 from opsim import seams
@@ -88,13 +89,15 @@ EXPECT_PROBES = ("table_cell", "passed", "cache_hit", "cache_hit_script_changed"
                  "prefix_sharing_prompts_cached", "real_agents", "second_agent_starved",
                  "threads_run", "overlapping_requests_different_prompts", "overlapping_requests_same_prompt",
                  "cache_hit_on_concurrent_original", "post_probe_fresh", "preempted_while_holding_a_lock",
-                 "protein_tagged_with_foreign_source", "observer_raised_reply_captured", "weak_key_twins_both_asked")
+                 "protein_tagged_with_foreign_source", "observer_raised_reply_captured", "weak_key_twins_both_asked",
+                 "agent_rewrote_signal", "flood_past_capacity", "repeat_after_flood_fresh", "repeat_after_flood_cached")
 
 KNOWN = ("EXECUTE", "PERMIT", "BLOCK", "FAILURE", "DEFER")
 EXEC_PERMITS = ("EXECUTE", "PERMIT")
 EXC = {"RuntimeError": RuntimeError, "ValueError": ValueError, "KeyError": KeyError, "TimeoutError": TimeoutError,
        "ZeroDivisionError": ZeroDivisionError}
-UNKNOWNS = ["UNKNOWN", "", "permit", "Permit", "PERMIT ", "APPROVE", "SUCCESS", "EXECUTE\n", "OK"]
+UNKNOWNS = ["UNKNOWN", "", "permit", "Permit", "PERMIT ", "APPROVE", "SUCCESS", "EXECUTE\n", "OK",
+            "EXEC", "PERMITBLOCK", "EXECUTEPERMIT", "BLOCKED", "PERMITTED"]       # pieces / concatenations of legal verdicts
 POOL = ["deploy service", "deploy server", "deploy s", "deploy service ", "Deploy service", "", "a",
         "calculate 2+2", "delete all logs", "list files", "päyload ✓ 漢字", "x" * 300, "list filez"]
 # "weak cache key" twins: different requests that a sloppy request identity would merge (weak checksum, truncation at
@@ -121,6 +124,9 @@ PREFIX_TWINS = [["deploy service", "deploy server", "deploy s"], ["list files", 
 
 
 # ----------------------------------------------------------------------------------------- plans
+# what an agent does to the (shared, mutable) Signal it was handed before it answers
+SIGNAL_EDITS = ["none", "none", "none", "upper", "redact", "append", "empty", "fields"]
+PLAIN = {"src_e": "none", "src_a": "none", "payload": "text", "conf": 0.9, "meta": False, "sig_e": "none", "sig_a": "none"}
 SOURCES = ["none", "none", "none", "self", "empty", "other", "mallory", "sub-model-7"]
 PAYLOADS = ["text", "text", "text", "none", "dict", "int", "empty"]
 CONFS = [0.9, 0.9, 1.0, 0.0, -1.0, 7.5]
@@ -129,10 +135,11 @@ CONFS = [0.9, 0.9, 1.0, 0.0, -1.0, 7.5]
 def _style(rng, plain=0.45):
     """Optional ActionProtein fields the library never sets itself but an agent may, and the observer callbacks."""
     if rng.random() < plain:
-        pr = {"src_e": "none", "src_a": "none", "payload": "text", "conf": 0.9, "meta": False}
+        pr = dict(PLAIN)
     else:
         pr = {"src_e": rng.choice(SOURCES), "src_a": rng.choice(SOURCES), "payload": rng.choice(PAYLOADS),
-              "conf": rng.choice(CONFS), "meta": rng.random() < 0.4}
+              "conf": rng.choice(CONFS), "meta": rng.random() < 0.4,
+              "sig_e": rng.choice(SIGNAL_EDITS), "sig_a": rng.choice(SIGNAL_EDITS)}
     cb = weighted(rng, [(6, "none"), (2.5, "record"), (0.8, "raise"), (0.4, "raise_block"), (0.4, "raise_permit")])
     return pr, cb
 
@@ -197,6 +204,8 @@ def gen(rng, tier, i):
 
     if i % THREADS_EVERY == 0:
         return _gen_threads(rng, tier)
+    if i % FLOOD_EVERY == 3:
+        return _gen_flood(rng, tier)
     real = rng.random() < (0.06 if tier == "quick" else 0.12)
     cfg = {"logic": weighted(rng, [(2, "AND"), (2, "OR"), (1, "MAJORITY"), (1, "UNANIMOUS"), (2, "EXECUTOR_PRIORITY"),
                                    (2, "ASSESSOR_PRIORITY")]),
@@ -232,6 +241,32 @@ def gen(rng, tier, i):
             ops.append(["clock", "adv", rng.choice([0.5, 30.0, 299.0, 301.0, 4000.0, -1.0, -100.0, -4000.0])])
         else:
             ops.append(["clear"])
+    return {"config": cfg, "prompts": prompts, "ops": ops}
+
+
+FLOOD_EVERY = 250       # one run in 250 drives the cache past its capacity (1000 entries in the library)
+CAPACITY_NEAR = [990, 996, 997, 998, 999, 1000, 1001, 1002, 1005, 1050, 1100]
+
+
+def _gen_flood(rng, tier):
+    """A few early requests, then N distinct trivial requests (N around the library's cache capacity), then the early
+    ones again: they are either still cached (and must repeat their original) or evicted (and must be judged afresh)."""
+    cfg = {"logic": weighted(rng, [(3, "AND"), (2, "OR"), (1, "UNANIMOUS"), (2, "EXECUTOR_PRIORITY"), (2, "ASSESSOR_PRIORITY")]),
+           "cache": True, "ttl": 300.0, "breaker": "off", "agents": "fake", "budget": 1000}
+    cfg["protein"], cfg["callbacks"] = _style(rng, plain=0.7)
+    if cfg["callbacks"].startswith("raise"):
+        cfg["callbacks"] = "record"
+    prompts = rng.sample(POOL, 3)
+    early = [["run", pi, _verdict(rng, "e"), rng.choice(["BLOCK", "BLOCK", "PERMIT", "DEFER"])] for pi in range(3)]
+    ops = list(early)
+    ops.append(["flood", rng.choice(CAPACITY_NEAR), rng.choice(["EXECUTE", "PERMIT"]), "PERMIT"])
+    order = [0, 1, 2]
+    rng.shuffle(order)
+    for pi in order:
+        ops.append(["run", pi] + (early[pi][2:] if rng.random() < 0.5 else [_verdict(rng, "e"), _verdict(rng, "a")]))
+    if rng.random() < 0.3:
+        ops.append(["flood", rng.choice([3, 10, 50]), "EXECUTE", "PERMIT"])
+        ops.append(["run", rng.randrange(3), _verdict(rng, "e"), _verdict(rng, "a")])
     return {"config": cfg, "prompts": prompts, "ops": ops}
 
 
@@ -346,9 +381,6 @@ def simplify(plan):
         yield yielded
 
 
-PLAIN = {"src_e": "none", "src_a": "none", "payload": "text", "conf": 0.9, "meta": False}
-
-
 def _simplify_ops(plan):
     cfg = plan["config"]
     if cfg.get("callbacks", "none") != "none":
@@ -395,6 +427,12 @@ def _simplify_ops(plan):
                         ops = [list(o) for o in old]
                         ops[j][pos] = small
                         yield _with(plan, path, ops)
+            if op[0] == "flood" and op[1] not in (1000, 1001):
+                for small in (1001, 1000):
+                    if small < op[1]:
+                        ops = [list(o) for o in old]
+                        ops[j][1] = small
+                        yield _with(plan, path, ops)
             if op[0] == "clock" and op[1] == "ttl" and op[3] not in (0.0, 1.0, -1.0):
                 ops = [list(o) for o in old]
                 ops[j][3] = 1.0 if op[3] > 0 else -1.0
@@ -440,12 +478,28 @@ class Fake:
             r.asked_a += 1
             v = r.ay = r.ay_script
         k.ev("express", [self.role, v])
+        pr = {**PLAIN, **(w.cfg.get("protein") or {})}
+        edit = pr["sig_e" if self.role == "executor" else "sig_a"]
+        if edit != "none":
+            # the Signal is the caller's object only until it is handed over: an agent may rewrite it
+            k.probe("agent_rewrote_signal")
+            k.fault("collab_adversarial_value")
+            if edit == "upper":
+                signal.content = str(signal.content).upper()
+            elif edit == "redact":
+                signal.content = "[redacted]"
+            elif edit == "append":
+                signal.content = str(signal.content) + " (reviewed by " + self.role + ")"
+            elif edit == "empty":
+                signal.content = ""
+            else:
+                signal.source, signal.trace_id = "mallory", "forged"
+                signal.metadata["approved"] = True
         if v.startswith("raise:"):
             k.fault("collab_raise")
             raise EXC[v[6:]]("scripted failure of " + self.role)
         if v not in KNOWN:
             k.fault("collab_adversarial_value")
-        pr = w.cfg.get("protein") or PLAIN
         src = pr["src_e" if self.role == "executor" else "src_a"]
         other = w.asr.name if self.role == "executor" else w.ex.name
         source = {"none": None, "empty": "", "self": self.name, "other": other}.get(src, src)
@@ -676,6 +730,53 @@ class World:
         elif age > 0 and self.ttl_us - age <= 1_000_000:
             k.probe("ttl_just_below_hit")
 
+    # ------------------------------------------------------------------ capacity: many distinct trivial requests
+    def flood(self, op):
+        """N distinct fresh requests with one fixed script, 1 ms apart, line tracing suspended (speed).  Each of them is a
+        request like any other: it must consult the agents (its prompt was never seen), obey the table and bind its token."""
+        k, n, ez, ay = self.k, op[1], op[2], op[3]
+        self.floods = getattr(self, "floods", 0) + 1
+        old = sys.gettrace()
+        sys.settrace(None)
+        fresh = passed = 0
+        bad = None
+        try:
+            for j in range(n):
+                prompt = f"flood {self.floods}.{j}"
+                r = Req(ez, ay)
+                self.cur_req["main"] = r
+                set_clock(CLOCK.now + 0.001)
+                try:
+                    res = self.loop.run(prompt)
+                except ObserverError:
+                    continue
+                except Exception as e:
+                    bad = ("returns", f"raised:{type(e).__name__}", "flood", repr(e)[:120])
+                    break
+                if r.asked_e or r.asked_a:
+                    fresh += 1
+                elif bad is None:
+                    bad = ("cache", "cached_reply_without_original", "lookup", f"prompt={prompt!r} was never asked before")
+                if not res.blocked:
+                    passed += 1
+                    if not sat(self.logic, r.ez if r.asked_e else None, r.ay if r.asked_a else None) and bad is None:
+                        bad = ("table", "passed_without_keys", f"{self.logic}:{cls(r.ez)}x{cls(r.ay)}", f"prompt={prompt!r}")
+                tok = tok_of(res)
+                if tok is not None and tok[0] != hashlib.sha256(prompt.encode()).hexdigest()[:16] and bad is None:
+                    bad = ("token", "token_unbound", "fresh", f"prompt={prompt!r} token={tok}")
+        finally:
+            sys.settrace(old)
+        k.ev("flood", [n, fresh, passed])
+        k.fault("queue_full")
+        self.flooded = getattr(self, "flooded", 0) + n
+        if self.flooded + len(self.orig) > 1000:
+            k.probe("flood_past_capacity")
+        if passed != n:
+            self.trivial = False
+        if bad:
+            k.violation(*bad)
+        return True
+
     # ------------------------------------------------------------------ sequential operations
     def seq_op(self, op, tr):
         """One operation with nobody else running (sequential family, pre- and post-phase).  False = stop the run."""
@@ -705,6 +806,8 @@ class World:
                 return False
             # the statement says nothing about clear_cache: it is only a perturbation of the history
             return True
+        if name == "flood":
+            return self.flood(op)
         if op[1] >= len(prompts):
             return True
         rec = self.invoke(op, tracer=tr)
@@ -713,6 +816,8 @@ class World:
             return False
         prompt, now = rec["prompt"], rec["t_inv"]
         k.ev("run", [op[1], rec["ez"], rec["ay"], rec["fresh"], rec["flagged"], rec["snap"]])
+        if getattr(self, "flooded", 0):
+            k.probe("repeat_after_flood_fresh" if rec["fresh"] else "repeat_after_flood_cached")
         if rec["fresh"]:
             self.judge_fresh(rec)
             old = orig.get(prompt, [])
